@@ -769,6 +769,62 @@ def fish_project(r):
         return "PANIC"
     m = re.search(r"\(script (x[0-9a-f]*)\)", r)
     return "script " + m.group(1) if m else r.split(" ")[0]
+
+
+FISH_NAME_BYTES = ["'", "\\", ",", "$", "#", " ", "\"", "`", "(", ")", ";", "\t", "é", "%", "~", "*", "=", "\n", "-", "_"]
+
+
+def fish_names_case(rng):
+    """a small valid tree (depth <= 3 below the root) with adversarial names; every name ends in a serial number
+    (unique), no name starts with '-' (clap's configuration check), shorts are distinct over the tree"""
+    k = [0]
+
+    def fresh():
+        k[0] += 1
+        s = "".join(rng.choice(FISH_NAME_BYTES + list("abc")) for _ in range(rng.choice([1, 2, 3])))
+        if s.startswith("-"):
+            s = "a" + s
+        return s + "n%d" % k[0]
+
+    shorts = [c for c in FISH_NAME_BYTES if c != "-"] + list("xyz")
+    rng.shuffle(shorts)
+
+    def arg():
+        items = ["arg", hexs(fresh())]
+        kind = rng.choice(["flag", "opt", "optpv", "pos"])
+        if kind != "pos":
+            r = rng.random()
+            if r < 0.7 and shorts:
+                items.append("(s %s)" % hexs(shorts.pop()))
+                if rng.random() < 0.2 and shorts:
+                    items.append("(vsa %s)" % hexs(shorts.pop()))
+            if r > 0.3 or len(items) == 2:
+                items.append("(l %s)" % hexs(fresh()))
+                if rng.random() < 0.3:
+                    items.append("(vla %s)" % hexs(fresh()))
+        items.append("(act %s)" % ("flag" if kind == "flag" else "set"))
+        if kind == "optpv" or (kind == "pos" and rng.random() < 0.5):
+            for _ in range(rng.choice([1, 2, 3])):
+                items.append("(%s %s)" % (rng.choice(["pv", "pv", "hpv"]), hexs(fresh())))
+        return "(" + " ".join(items) + ")", kind == "pos"
+
+    def cmd(depth):
+        items = ["cmd", hexs(fresh() if depth else "prog")]
+        if depth and rng.random() < 0.4:
+            items.append("(va %s)" % hexs(fresh()))
+        npos = 0
+        for _ in range(rng.choice([0, 1, 2, 3])):
+            a, is_pos = arg()
+            if is_pos and npos:
+                continue
+            npos += is_pos
+            items.append(a)
+        if depth < 3:
+            for _ in range(rng.choice([0, 1, 2] if depth < 2 else [0, 1])):
+                items.append(cmd(depth + 1))
+        return "(" + " ".join(items) + ")"
+
+    return "(aot fish %s %s)" % (hexs(rng.choice(["prog", "my-prog", "a b", "q'r"])), cmd(0))
 # ---- end fish generator model ----
 
 
@@ -861,6 +917,12 @@ def streams(tier, rng):
         merge(dist, st)
     out.append(Stream("fish-model", cases, oracle=oracle, area="fish", project=fish_project, nontrivial=nontrivial,
                       describe=dist))
+    # 5. the same comparison on trees whose names (commands, aliases, longs, shorts, possible values, bin) contain
+    #    quotes, backslashes, commas, '$', '#', white space, newlines, non-ASCII: escape_string / the comma rule /
+    #    raw emission, byte for byte.  No oracle: the token search of the mention oracle looks for the raw spelling.
+    cases = [fish_names_case(rng) for _ in range(60 if quick else 1200)]
+    out.append(Stream("fish-model-names", cases, area="fish", project=fish_project, nontrivial=nontrivial,
+                      describe={"trees": len(cases), "name alphabet": [repr(c) for c in FISH_NAME_BYTES]}))
     # ---- end fish generator model ----
     return out
 
